@@ -322,7 +322,7 @@ func TestBuilderRandom(t *testing.T) {
 
 // TestBuilderExhaustive enumerates every role assignment over offsets 0..5
 // (absent, entry with status 0..4, gap, renew-then-accept duplicate) under four
-// insertion orders and two gap splittings.
+// insertion orders (quick) or all 720 insertion orders (thorough) and two gap splittings.
 func TestBuilderExhaustive(t *testing.T) {
 	const nOff = 6
 	const nRoles = 8
@@ -345,6 +345,24 @@ func TestBuilderExhaustive(t *testing.T) {
 		perm[i], perm[j] = perm[j], perm[i]
 	}
 	orders := [][]int{{0, 1, 2, 3, 4, 5}, {5, 4, 3, 2, 1, 0}, {1, 3, 5, 0, 2, 4}, perm}
+	if ev.Thorough() {
+		// every insertion order of the six offsets (the first one stays ascending: it is
+		// the one the non-trivial configurations are counted on)
+		orders = orders[:0]
+		var rec func(cur []int, used int)
+		rec = func(cur []int, used int) {
+			if len(cur) == nOff {
+				orders = append(orders, append([]int(nil), cur...))
+				return
+			}
+			for o := 0; o < nOff; o++ {
+				if used&(1<<o) == 0 {
+					rec(append(cur, o), used|1<<o)
+				}
+			}
+		}
+		rec(nil, 0)
+	}
 	var evals, ntCount int64
 	roles := make([]int, nOff)
 	for cfg := 0; cfg < total; cfg++ {
@@ -409,5 +427,5 @@ func TestBuilderExhaustive(t *testing.T) {
 	ev.ClassN("exhaustive_builder_calls", evals)
 	ev.ClassN("exhaustive_nontrivial_configs", ntCount)
 	// ev.Exhaustive is not set: only this sub-space is enumerated completely, the 0..40 space is sampled
-	ev.Extra("exhaustive_subspace", "offsets 0..5 x roles {absent, status 0..4, gap, renew-then-accept} = 8^6 configurations x 4 insertion orders x 2 gap splittings")
+	ev.Extra("exhaustive_subspace", fmt.Sprintf("offsets 0..5 x roles {absent, status 0..4, gap, renew-then-accept} = 8^6 configurations x %d insertion orders x 2 gap splittings", len(orders)))
 }
